@@ -194,7 +194,7 @@ def run(ctx: Ctx):
         )
     ctx.assume("a forcing use of a dask value is observable as the execution of one of its tasks (counting task inserted on every input block)")
     ctx.trust("dask.array lazy API (blockwise, map_blocks, unify_chunks, rechunk, indexing)", "xarray.apply_ufunc", "z3 / cvc5")
-    return "other", ("Mixed: laziness use-site obligations (FrameCheck L-sites) on the real source; evaluation counting on enumerated calls is a bounded stand-in. " + note)
+    return "other", ("Mixed: laziness use-site obligations (configuration-level execution of the real groupby_reduce) on the real source; evaluation counting on enumerated calls is a bounded stand-in. " + note)
 
 
 def _case_of(payload):
